@@ -8,9 +8,12 @@ harness against math/big and against the executable specification `Spec.Meaning.
 -/
 import JsonV.Lemmas.MeaningSpec
 import JsonV.Lemmas.MeaningStr
+import JsonV.Lemmas.MeaningEval
 import JsonV.Lemmas.GlueMeaningTree
 import JsonV.Lemmas.GlueMeaningFuel
 import JsonV.Lemmas.GlueMeaningUnquote
+import JsonV.Lemmas.GlueMeaningTreeC
+import JsonV.Lemmas.GlueMeaningNumI
 import JsonV.Props.C01
 
 namespace JsonV.Props.C03
@@ -184,6 +187,32 @@ theorem iface_meaning (isAny opt : Bool) (c : Cache) (b : Bytes) (t : MTree) (h 
   rw [iface_eq_fast fp isAny opt c c b]
   exact any_meaning fp c b t h hnd hdep
 
+/-! ### Total characterisation on valid texts; duplicate names are rejected -/
+
+/-- For EVERY text the RFC grammar accepts within the nesting limit — with or without duplicate names, with or without
+overflowing numbers — decoding into `any` gives exactly `evalV` of the spec tree: the replay, in document order, of
+"look the decoded name up among the members seen so far (duplicate ⇒ dup); numbers through `fp` (overflow ⇒ range)". -/
+theorem any_meaning_total (c : Cache) (b : Bytes) (t : MTree) (h : parseTree b = some t) (hdep : t.depth ≤ maxDepth) :
+    fast fp c b = JsonV.Lemmas.MeaningEval.evalV fp t :=
+  JsonV.Lemmas.MeaningEval.fast_eq_eval fp c b t h hdep
+
+/-- A valid text in which some object has two members with the same decoded name is rejected (default options), by
+every route: the result is an error, of class `dup` — or `range` if an overflowing number comes first. -/
+theorem dup_rejected (isAny opt : Bool) (c : Cache) (b : Bytes) (t : MTree) (h : parseTree b = some t)
+    (hdep : t.depth ≤ maxDepth) (hdup : t.noDup = false) :
+    ∃ e, unmarshalIface fp isAny opt c b = .error e ∧ (e = .dup ∨ (e = .range ∧ ∃ l, fp l = none)) := by
+  rw [iface_eq_fast fp isAny opt c c b, any_meaning_total fp c b t h hdep]
+  cases hv : JsonV.Lemmas.MeaningEval.evalV fp t with
+  | ok v =>
+    have := JsonV.Lemmas.MeaningEval.evalV_ok_noDup fp t v hv
+    rw [this] at hdup; cases hdup
+  | error e => exact ⟨e, rfl, JsonV.Lemmas.MeaningEval.evalV_err fp t e hv⟩
+
+/-- {"a":1,"a":2} -/
+def dupText : Bytes := [0x7B, 0x22, 0x61, 0x22, 0x3A, 0x31, 0x2C, 0x22, 0x61, 0x22, 0x3A, 0x32, 0x7D]
+example : parseTree dupText = some (.obj [([0x61], .num [0x31]), ([0x61], .num [0x32])]) := by rfl
+example : (MTree.obj [([0x61], .num [0x31]), ([0x61], .num [0x32])]).noDup = false := by rfl
+
 /-! ### Objects hold exactly their members, arrays keep order and length -/
 
 /-- Decoding an object text gives a map whose keys are exactly the decoded member names of the text, in number and
@@ -304,12 +333,36 @@ theorem meaning_implies_grammar_lib (b : Bytes) (t : MTree) (h : parseTree b = s
 
 example : JText ⟨true, true⟩ 2 id exampleText := meaning_implies_grammar exampleText exampleTree 2 (by rfl) (by decide)
 
-/-- Converse directions, NOT proved (validated by the harness op `corr-spec-vs-validator`). -/
-def grammar_implies_meaning_full : Prop := ∀ (b : Bytes) (md : Nat), JText ⟨true, true⟩ md id b → ∃ t, parseTree b = some t ∧ t.depth ≤ md
+/-- The converse: **every text of the C01 grammar (strict UTF-8, duplicate names allowed) is parsed by the meaning spec**,
+with a tree no deeper than the grammar's nesting bound.  With `meaning_implies_grammar`: the two formalisations of
+"valid JSON text" accept the same byte strings. -/
+theorem grammar_implies_meaning (b : Bytes) (md : Nat) (h : JText ⟨true, true⟩ md id b) :
+    ∃ t, parseTree b = some t ∧ t.depth ≤ md :=
+  JsonV.Lemmas.GlueMeaningTreeC.text_complete md b h
 
-def lexNum_iff_full : Prop := ∀ (b : Bytes) (n : Nat), (∃ l r, lexNum b = some (l, r) ∧ l.length = n) ↔ consumeNumber b = (n, .ok)
+theorem meaning_iff_grammar (b : Bytes) (md : Nat) :
+    (∃ t, parseTree b = some t ∧ t.depth ≤ md) ↔ JText ⟨true, true⟩ md id b :=
+  ⟨fun ⟨t, h, hd⟩ => meaning_implies_grammar b t md h hd, grammar_implies_meaning b md⟩
 
-def spec_iff_validator_full : Prop := ∀ (b : Bytes), (∃ t, parseTree b = some t ∧ t.depth ≤ maxDepth) ↔ JsonV.Model.Validate.isValid ⟨false, true⟩ b = true
+/-- **The meaning spec and C01's validator model accept the same texts** (strict UTF-8, duplicate names allowed,
+the library's nesting limit): `parseTree` succeeds with a tree within the limit iff `Value.IsValid`'s model says yes.
+Uses C01's `valid_iff` (validator = grammar). -/
+theorem spec_iff_validator (b : Bytes) :
+    (∃ t, parseTree b = some t ∧ t.depth ≤ maxDepth) ↔ JsonV.Model.Validate.isValid ⟨false, true⟩ b = true := by
+  rw [JsonV.Props.C01.valid_iff, meaning_iff_grammar b maxDepth]
+  exact ⟨JsonV.Lemmas.GlueMeaningTreeC.jtext_key_irrel true _ _ _, JsonV.Lemmas.GlueMeaningTreeC.jtext_key_irrel true _ _ _⟩
+
+example : JsonV.Model.Validate.isValid ⟨false, true⟩ exampleText = true :=
+  (spec_iff_validator exampleText).1 ⟨exampleTree, by rfl, by decide⟩
+
+/-- Numbers: `lexNum` accepts `n` bytes iff the model of jsonwire.ConsumeNumber answers `(n, nil)`
+(C01 `number_iff` glued to `lexNum_sound` / `lexNum_complete` / maximal munch). -/
+theorem lexNum_iff (b : Bytes) (n : Nat) :
+    (∃ l r, lexNum b = some (l, r) ∧ l.length = n) ↔ consumeNumber b = (n, .ok) :=
+  JsonV.Lemmas.GlueMeaningNumI.lexNum_iff b n
+
+example : consumeNumber [0x2D, 0x31, 0x2E, 0x35, 0x65, 0x33, 0x2C] = (6, .ok) :=
+  (lexNum_iff _ 6).1 ⟨_, _, by rfl, rfl⟩
 
 end Glue
 
